@@ -11,11 +11,66 @@ ASSUMPTIONS = [
 ]
 
 
+class ServiceClassTableTask:
+    pass
+
+
+def _table_task():
+    from pyvc.task import FiniteTask
+    from pyvc.interp import Interp, Config
+
+    class ServiceClassTable(FiniteTask):
+        """sop_class.uid_to_service_class - the dispatch a request's abstract syntax goes through before any handler can run - executed
+        on EVERY SOP class UID pynetdicom defines: the SOP class tables are pairwise disjoint (the order of the look-ups cannot
+        matter), every UID of one table reaches one service class, a UID of no table reaches the base class (whose SCP refuses the
+        request), and a handful of anchor facts from PS3.4 (Verification, CT Image Storage, Patient Root FIND, Modality Worklist,
+        UPS Push, Storage Commitment Push, Basic Grayscale Print, MPPS) name the class."""
+        name = "sop_class.uid_to_service_class/every-defined-SOP-class"
+        FN = "pynetdicom.sop_class:uid_to_service_class"
+        functions = [FN]
+        ANCHORS = {"1.2.840.10008.1.1": "VerificationServiceClass", "1.2.840.10008.5.1.4.1.1.2": "StorageServiceClass",
+                   "1.2.840.10008.5.1.4.1.2.1.1": "QueryRetrieveServiceClass", "1.2.840.10008.5.1.4.31": "BasicWorklistManagementServiceClass",
+                   "1.2.840.10008.5.1.4.34.6.1": "UnifiedProcedureStepServiceClass", "1.2.840.10008.1.20.1": "StorageCommitmentServiceClass",
+                   "1.2.840.10008.5.1.1.9": "PrintManagementServiceClass", "1.2.840.10008.3.1.2.3.3": "ProcedureStepServiceClass"}
+
+        def check(self, repo, emit):
+            I = Interp(repo, Config())
+            ns = I.module_ns(repo.module("pynetdicom.sop_class"))
+            tables = {k: v for k, v in ns.items() if k.startswith("_") and k.endswith("_CLASSES") and isinstance(v, dict)}
+            P = f"C19/{self.FN}"
+            emit(f"{P}/SOP-class-tables-found", len(tables) >= 10 and sum(len(t) for t in tables.values()) >= 150,
+                 detail=f"{len(tables)} tables, {sum(len(t) for t in tables.values())} UIDs")
+            seen, dup = {}, []
+            for tn, t in sorted(tables.items()):
+                for uid in t.values():
+                    if uid in seen and seen[uid] != tn:
+                        dup.append((uid, seen[uid], tn))
+                    seen[uid] = tn
+            emit(f"{P}/the-SOP-class-tables-are-pairwise-disjoint", not dup, detail=str(dup[:5]))
+            fi = repo.func(self.FN)
+
+            def run(uid):
+                kind, val = Interp(repo, Config()).run_function(fi, [uid])
+                return getattr(getattr(val, "ci", None), "name", None) if kind == "return" else f"{kind}:{val!r}"
+            per_table, mixed = {}, []
+            for tn, t in sorted(tables.items()):
+                got = {run(uid) for uid in t.values()}
+                per_table[tn] = got
+                if len(got) != 1 or any(g is None or ":" in str(g) for g in got):
+                    mixed.append((tn, sorted(map(str, got))))
+            emit(f"{P}/every-UID-of-a-table-reaches-one-service-class-and-nothing-raises", not mixed, detail=str(mixed[:5]))
+            by_uid = {uid: next(iter(per_table[tn])) for uid, tn in seen.items() if len(per_table[tn]) == 1}
+            wrong = [(u, by_uid.get(u), w) for u, w in self.ANCHORS.items() if by_uid.get(u) != w]
+            emit(f"{P}/anchor-SOP-classes-reach-the-service-class-PS3.4-defines-them-in", not wrong, detail=str(wrong))
+            emit(f"{P}/a-UID-of-no-table-reaches-the-base-class", run("1.2.826.0.1.3680043.9.3811.99") == "ServiceClass")
+    return ServiceClassTable()
+
+
 def tasks(tier):
     from contracts import assoc_scu
     from contracts.dimse_frag import DecodeStepTask
     # which context a received request "arrived on" is decided in decode_msg (the id of its last command fragment)
-    return [S.ServeTask(), assoc_scu.CStoreScpTask("C19/"), DecodeStepTask("C15/")]
+    return [S.ServeTask(), assoc_scu.CStoreScpTask("C19/"), DecodeStepTask("C15/"), _table_task()]
 
 
 def replay(rec):
@@ -27,4 +82,4 @@ LEVEL_TEXT = ("_serve_request executed symbolically for an arbitrary context id 
               "class is entered only if the id is accepted and with that id's context; otherwise the association is aborted and "
               "nothing is answered. Same obligation on the C-GET sub-operation path (_c_store_scp).")
 LEVEL_NOTE = "trusted: pyvc, z3, environment model of the association; service-class internals are C20/C21."
-TECHNIQUE = "deductive: reachability/effect-trace contract on Association._serve_request and _c_store_scp (AST->VC, z3)"
+TECHNIQUE = "deductive: reachability/effect-trace contract on Association._serve_request and _c_store_scp, context id of decode_msg (AST->VC, z3) + exhaustive execution of uid_to_service_class over every SOP class table"
